@@ -27,8 +27,8 @@ BOUND = {
 }
 TIME_CAP = {"quick": 240, "thorough": 3000}
 
-KINDS = ["f8", "i8", "u1", "b1", "str", "U", "D", "us", "ns", "td", "obj", "objb", "objs", "strz", "i8w", "i4", "f4"]
-REAL_KIND = {"objb": "obj", "objs": "obj", "strz": "str", "i8w": "i8"}
+KINDS = ["f8", "i8", "u1", "b1", "str", "U", "D", "us", "ns", "td", "obj", "objb", "objs", "strz", "i8w", "i4", "f4", "strm", "Dx", "i8x"]
+REAL_KIND = {"objb": "obj", "objs": "obj", "strz": "str", "i8w": "i8", "strm": "str", "Dx": "D", "i8x": "i8"}
 METHODS = [("sort", 1), ("sort", -1), ("rank", "min"), ("rank", "max"), ("rank", "ordinal"), ("unique", None)]
 
 
@@ -39,6 +39,12 @@ def alpha_of(kind, tier):
         return [None, "None", "a", ""]  # the texts 'None' and '' are values here, not missing values
     if kind == "i8w":
         return [0, -3000000000, 5, 2147483648, -1]  # both sides of the int32 range next to small values
+    if kind == "strm":
+        return [None, "nan", "None", "NA", " a", "a ", "a"]  # text that looks like a missing marker, text differing in leading / trailing blanks
+    if kind == "Dx":
+        return [None, "0001-01-01", "9999-12-31", "1677-09-21", "2262-04-12"]  # dates outside (and at the edge of) the range of nanosecond datetimes
+    if kind == "i8x":
+        return [0, -9223372036854775808, 9223372036854775807, -1]  # the ends of the int64 range (negation and differences overflow there)
     if kind == "strz":
         return [None, "a", "a\x00", "b"]  # strings that differ only in a trailing NUL (lost by fixed-width NumPy strings)
     return V.alphabet(kind, tier)
